@@ -15,7 +15,7 @@ def run(ctx):
                      extra_args=["--from", 1, "--to", 6200 if not f else 4200, "--step", 97 if not f else 211], desc=desc)
                 for f in seqprop.GEOMETRIES]
     return seqprop.run(
-        ctx, THEOREMS, corr=("result", "ents", "rows", "trees", "stats"), oracle=("C06", "C02", "C04"),
+        ctx, THEOREMS, corr=("result", "ents", "rows", "trees", "stats"), oracle=("C06", "C02", "C04", "C09"),
         quick_plan=quick, thorough_plan=thorough, corpus_tags=("D1", "D2"),
         text="Coq theorems for every geometry and EVERY frame count (0, partial last trees/huge frames included): free-all gives "
              "consistent metadata with nothing allocated and statistics (fr, fr/HF, fr/TF); allocate-all gives everything "
